@@ -63,6 +63,10 @@ class Ctx:
     def silent(self, rule, key, where="", why=""):
         """Instance on which the rule has no opinion (imprecision => silence, never an alarm)."""
         self.na_counts[rule] = self.na_counts.get(rule, 0) + 1
+        if not hasattr(self, "na_samples"):
+            self.na_samples = []
+        if len(self.na_samples) < 400:
+            self.na_samples.append(dict(rule=rule, instance=key + getattr(self, "suffix", ""), where=where, why=why))
 
     def bad(self, rule, key, where, msg, detail=None):
         self.instances.append(dict(rule=rule, key=key + self.suffix, ok=False, where=where, detail=msg))
@@ -165,6 +169,7 @@ def finish(ctx, level="other"):
             explanation=" ".join(ctx.explanations),
             per_rule=ctx.rule_counts,
             silent=ctx.na_counts,
+            silent_samples=getattr(ctx, "na_samples", [])[:60],
             floors=ctx.floors,
             positive_controls=ctx.controls,
             configs=ctx.configs,
